@@ -102,10 +102,25 @@ def inside_code(cls):
     return code
 
 
+FALLBACK = {"used": False}
+
+
 def inside_matrix(cls, X):
     code = inside_code(cls)
     if code is None:
-        return None
+        # the source no longer has the recognised `eps = ...; inside = ...` statements (e.g. the finder was
+        # restructured): use the DOCUMENTED test instead - every barycentric coordinate >= -eps, evaluated in
+        # the order of the pinned code.  A finder whose own test differs then disagrees with the model's
+        # answer for these matrices (still a sound tie; entries within 1e-12 of the threshold are not compared)
+        if X.shape[0] not in (2, 3):
+            return None
+        FALLBACK["used"] = True
+        last = 1 - X[0]
+        for i in range(1, X.shape[0]):
+            last = last - X[i]
+        lam = np.minimum(X.min(axis=0), last)
+        FALLBACK["near"] = bool((np.abs(lam + EPS) < 1e-12).any())
+        return lam >= -EPS
     env = {"np": np, "X": X}
     exec(code, env)
     return np.asarray(env["inside"]).astype(bool)
@@ -290,6 +305,12 @@ def corr_decide(ctx, m, kind, x):
             if ok:
                 agree = True
                 ctx.count("corr.decide:other-valid-choice")
+    if FALLBACK["used"]:
+        ctx.notes["finder_inside_tie"] = ("inside statements not found in the live source: documented test "
+                                          "(barycentric >= -eps) used for the matrices handed to the model")
+        if not agree and FALLBACK.get("near"):
+            ctx.count("corr.decide:threshold-inconclusive(fallback)")
+            return
     ctx.corr("finder.decide", agree,
              {"mesh": meshes.mesh_descr(m), "x": x.tolist(), "cand": cand, "stages": len(rec.calls)},
              out, {"cells": None if cells is None else cells.tolist(), "err": err})
